@@ -65,6 +65,7 @@ Proof.
   - unfold noeff in H. destruct (caller_step s i veto wr) eqn:E; inversion H; subst. apply (caller_step_ctrl _ _ _ _ _ E).
   - unfold noeff in H. destruct (reply_step s i) eqn:E; inversion H; subst. apply (reply_step_ctrl _ _ _ E).
   - unfold noeff in H. destruct (handler_step s j veto wr) eqn:E; inversion H; subst. apply (handler_step_ctrl _ _ _ _ _ E).
+  - unfold noeff in H. destruct (hwait_step s j i) eqn:E; inversion H; subst. apply (hwait_step_ctrl _ _ _ _ E).
 Qed.
 
 Lemma mbi_step s e s' fx :
@@ -131,6 +132,8 @@ Proof.
     eapply mbi_ctrl; [eapply reply_step_ctrl; eauto|exact Hm].
   - unfold noeff in H. destruct (handler_step s j veto wr) eqn:E; inversion H; subst.
     eapply mbi_ctrl; [eapply handler_step_ctrl; eauto|exact Hm].
+  - unfold noeff in H. destruct (hwait_step s j i) eqn:E; inversion H; subst.
+    eapply mbi_ctrl; [eapply hwait_step_ctrl; eauto|exact Hm].
 Qed.
 
 
@@ -478,6 +481,7 @@ Proof.
   - unfold noeff in H. destruct (caller_step s i veto wr); inversion H.
   - unfold noeff in H. destruct (reply_step s i); inversion H.
   - unfold noeff in H. destruct (handler_step s j veto wr); inversion H.
+  - unfold noeff in H. destruct (hwait_step s j i); inversion H.
 Qed.
 
 Lemma fxdel_not_ok s e s' : stat_inv s -> sstep s e = Some (s', FxDel) -> st s' <> Ok.
@@ -513,6 +517,8 @@ Proof.
     destruct (reply_step_ctrl _ _ _ E) as (_ & _ & _ & _ & X & _). congruence.
   - unfold noeff in H. destruct (handler_step s j veto wr) eqn:E; inversion H; subst.
     destruct (handler_step_ctrl _ _ _ _ _ E) as (_ & _ & _ & _ & X & _). congruence.
+  - unfold noeff in H. destruct (hwait_step s j i) eqn:E; inversion H; subst.
+    destruct (hwait_step_ctrl _ _ _ _ E) as (_ & _ & _ & _ & X & _). congruence.
 Qed.
 
 Lemma pinv_sess p n s e s' fx :
